@@ -8,9 +8,9 @@ from .. import oracles as O
 from ..validate import validation_group
 BOUNDS = {'quick': {'identifier_list_len': 2, 'numeric identifiers': 'full u64', 'components': 'u64 <= MAX_SAFE_INTEGER'},
           'thorough': {'identifier_list_len': '6 (order), 4 (laws on triples, hash)', 'numeric identifiers': 'full u64', 'components': 'u64 <= MAX_SAFE_INTEGER'}}
-OUTSIDE = ['identifier lists longer than the bound', 'contents of alphanumeric identifiers: String comparison is trusted to be byte-wise (abstract ordered tokens)',
+OUTSIDE = ['identifier lists longer than the bound', 'single identifiers longer than 24 bytes in the identifier-parse group', 'contents of alphanumeric identifiers: String comparison is trusted to be byte-wise (abstract ordered tokens)',
            'slice::sort / BinaryHeap consistency follows from the total order by the std contract (not encoded); Iterator::max/min are covered under C14']
-ASSUMPTIONS = ['str::parse::<u64> is a contract stub in the identifier-parse group (arbitrary Result); that it succeeds exactly on digit strings below 2^64 is the std contract, spot-checked natively',
+ASSUMPTIONS = ['identifier-parse group: <u64 as FromStr> is modelled (not encoded) as Ok(decimal value) exactly for all-digit texts below 2^64 over the identifier alphabet [0-9A-Za-z-]; checked natively on the identifier corpus and on every counterexample text',
                'String: Ord is byte-wise lexicographic (std documentation)', 'Hasher modelled as an uninterpreted mixing function: equal traces give equal hashes',
                'std models of slice cmp/eq/hash are transcriptions of the pinned nightly rust-src']
 
@@ -173,12 +173,34 @@ def ident_parse_group(s):
     e.tenv.string_as_slice = True
     e.tenv.cache.clear()
     parsed = {}
+    CAP = 24
+    from ..values import Vc, ite as vite, mk_variant
+    from ..types import TVec, INTS
+    raw = fresh(STRSLICE, 'raw')
+    bs = [z3.BitVec('raw.byte%d' % i, 8) for i in range(CAP)]
+    ln = raw.fs[2].t
+    inrange = lambda b, lo, hi: AND(z3.UGE(b, ord(lo)), z3.ULE(b, ord(hi)))
+    isdig = [inrange(b, '0', '9') for b in bs]
+    # take_while(1.., alphanumeric or '-') hands the closure 1..CAP bytes of that alphabet (longer identifiers: outside the bound)
+    h.wf += [z3.UGE(ln, 1), z3.ULE(ln, CAP)] + [OR(isdig[i], inrange(bs[i], 'a', 'z'), inrange(bs[i], 'A', 'Z'), bs[i] == ord('-')) for i in range(CAP)]
+    content = Vc(TVec(INTS['u8'], CAP), ln, [Sc(b) for b in bs], CAP)
+    e.str_content = lambda sv: content
+    alld = AND(*[z3.Implies(z3.UGT(ln, i), isdig[i]) for i in range(CAP)])
+    W = 96
+    V = z3.BitVecVal(0, W)
+    for i in range(CAP):
+        V = z3.If(z3.UGT(ln, i), V * 10 + z3.ZeroExt(W - 8, bs[i] - ord('0')), V)
+    fits = AND(alld, z3.ULT(V, z3.BitVecVal(2 ** 64, W)))
 
     def str_parse(eng, callee, args, dest_ts, st, where):
+        # model of <u64 as FromStr> on this alphabet: Ok(decimal value) exactly for all-digit texts below 2^64 (no sign can occur), Err otherwise
         wf = []
-        v = fresh(eng.ty(dest_ts), 'parse_u64', wf)
+        dt = eng.ty(dest_ts)
+        v = fresh(dt, 'parse_u64', wf)
         eng.assume(wf)
         h.wf += wf
+        h.wf.append(is_variant(v, 'Ok') == fits)
+        h.wf.append(z3.Implies(fits, payload(v, 'Ok')[0].t == z3.Extract(63, 0, V)))
         parsed['r'] = v
         return v
     e.stubs.append((re.compile(r'^core::str::<impl str>::parse::<u64>$'), str_parse))
@@ -188,7 +210,6 @@ def ident_parse_group(s):
         s.add(ob='identifier: classification closure found in the MIR', mode='syntactic', solver_s=0.0, kind='prove', verdict='inconclusive',
               detail='no closure of `identifier` taking &str in the MIR: the text-to-Identifier step is not where the check expects it')
         return
-    raw = fresh(STRSLICE, 'raw')
     r = h.call(bodies[0], Clo('identifier', []), raw)
     pr = parsed.get('r')
     if pr is None:
@@ -198,23 +219,34 @@ def ident_parse_group(s):
     same = lambda a, b: AND(a.fs[0].t == b.fs[0].t, a.fs[1].t == b.fs[1].t, a.fs[2].t == b.fs[2].t)
 
     def dec(m):
-        return {'abstract': 'identifier classification does not follow str::parse::<u64>', 'len': m.eval(raw.fs[2].t, model_completion=True).as_long(),
-                'parse_ok': bool(z3.is_true(m.eval(is_variant(pr, 'Ok'), model_completion=True)))}
+        n = m.eval(ln, model_completion=True).as_long()
+        return {'text': ''.join(chr(m.eval(bs[i], model_completion=True).as_long()) for i in range(min(n, CAP)))}
+
+    def expect(t):
+        return [{'n': int(t)}] if t.isdigit() and int(t) < 2 ** 64 else [{'s': t}]
 
     def replay(case):
-        prog = [{'id': 'i%d' % i, 'op': 'version', 'text': '1.0.0-' + t} for i, (t, _) in enumerate(ID_CASES)]
+        texts = [case['text']] + [t for t, _ in ID_CASES]
+        prog = [{'id': 'i%d' % i, 'op': 'version', 'text': '1.0.0-' + t} for i, t in enumerate(texts)]
 
         def judge(native):
             bad = []
-            for i, (t, want) in enumerate(ID_CASES):
+            for i, t in enumerate(texts):
                 x = native.get('i%d' % i) or {}
                 pre = ((x.get('v') or {}).get('pre')) if x.get('ok') else None
-                exp = [{'n': want[1]}] if want[0] == 'n' else [{'s': t}]
-                if pre != exp:
-                    bad.append('Version::parse(%r).pre_release = %r (SemVer: %s)' % ('1.0.0-' + t, pre, 'numeric %d' % want[1] if want[0] == 'n' else 'alphanumeric'))
-            return ('confirmed' if bad else 'mismatch'), '; '.join(bad[:3]) or 'no corpus identifier reproduces the abstract counterexample'
+                if x.get('panic') or pre != expect(t):
+                    bad.append('Version::parse(%r): %s (SemVer: %s)' % ('1.0.0-' + t, 'PANIC ' + str(x.get('panic')) if x.get('panic') else 'pre_release = %r' % (pre,),
+                                                                        'numeric' if 'n' in expect(t)[0] else 'alphanumeric'))
+                if i == 0 and not bad:
+                    pass
+            return ('confirmed' if bad else 'mismatch'), '; '.join(bad[:3]) or 'neither the model text nor a corpus identifier reproduces the counterexample'
         return prog, judge
-    s.cover(h, 'a digit string of 20 characters that parses', [is_variant(pr, 'Ok'), raw.fs[2].t == 20])
+    assert all(expect(t) == ([{'n': w[1]}] if w[0] == 'n' else [{'s': t}]) for t, w in ID_CASES)
+    pan = [c for _, _, c in e.sink.panics]
+    s.unreachable(h, 'identifier: the classification closure cannot panic or overflow on any identifier text of up to %d bytes' % CAP, [], pan, decode=dec, replay=replay)
+    s.bounds_ok(h, 'identifier classification', [])
+    s.cover(h, 'a digit string of 20 characters that parses', [is_variant(pr, 'Ok'), ln == 20])
+    s.cover(h, 'a digit string of 20 characters that does not fit u64', [is_variant(pr, 'Err'), ln == 20, alld])
     s.prove(h, 'identifier: every text that parses as u64 becomes Numeric with that value (so numerics compare by value, below alphanumerics)',
             [is_variant(pr, 'Ok')], AND(is_variant(r, 'Numeric'), payload(r, 'Numeric')[0].t == payload(pr, 'Ok')[0].t), decode=dec, replay=replay)
     s.prove(h, 'identifier: every other text becomes AlphaNumeric with exactly that text',
